@@ -68,6 +68,14 @@ add("C17", "exploration", _SWEEP_TEXT + "Oracle: ids unique per file, novel ids 
     "across both GTFs and all chromosomes, reference exon_ids preserved; workloads include annotations with IsoQuant-style ids.",
     _SWEEP_NOTE, "deterministic simulation sweep (placement of chromosomes on workers, hash seeds, resume) + identifier oracle")
 
+add("C10", "exploration",
+    "Seeded search over multi-experiment invocations: 2-3 experiments (same or different read subsets, different polyA "
+    "content) given as YAML and as --bam_list, every permutation of their order (thorough) x --threads {1,2,4} x hash seeds x "
+    "SimPool schedules; each experiment's files are compared byte-wise with a stand-alone single-experiment run, and the "
+    "combined_* tables cell by cell with the individual tables.",
+    "Trusted: stand-alone reference runs (threads 1, hash seed 0) and the table parser; experiments come from the seeded generator.",
+    "deterministic simulation of in-process histories: permuted experiment sequences in one interpreter vs stand-alone golden runs")
+
 PENDING = {p: "simulation target (DESIGN.md sections 3-4) whose check is not registered in this revision yet"
            for p in ["C02", "C03", "C05", "C07", "C08", "C09", "C10", "C12", "C15", "C17", "C18", "C20"]}
 
